@@ -225,5 +225,8 @@ let () =
     match cfg_get cfg "s" "wire" with
     | "wire" -> List.iter (fun op -> Printf.printf "r %s\n" (wire_op (words op))) ops
     | "e2e" -> e2e_case cfg ops
-    | "inject" -> ()
+    | "inject" ->
+        (* whole-interface injection: the model's claim is "no panic" (C20_decompress_no_panic and the
+           parse_no_panic theorems for the 6LoWPAN part; the rest of the ingress path is property C03) *)
+        List.iter (fun op -> match words op with "f" :: _ -> Printf.printf "r ok\n" | _ -> ()) ops
     | s -> failwith ("unknown stream " ^ s))
